@@ -31,7 +31,13 @@ func (gs GenesisState) Validate() error {
 				return fmt.Errorf("invalid deposit address %s", d.Creator)
 			}
 
-			if w.Address == d.Creator &&
+			// the withdrawal records the depositor, which differs from the creator for
+			// delegated deposits; deposits without a depositor were made by their creator.
+			depositor := d.DepositorAddress
+			if depositor == "" {
+				depositor = d.Creator
+			}
+			if w.Address == depositor &&
 				w.MarketUID == d.MarketUID &&
 				w.ParticipationIndex == d.ParticipationIndex {
 				found = true
